@@ -15,8 +15,12 @@ use avt::Vt;
 pub fn model_inert(s: &str) -> bool {
     let mut pm = PModel::new();
     for ch in s.chars() {
-        if pm.feed_act(ch).0.is_some() {
+        let (f, act) = pm.feed_act(ch);
+        if f.is_some() {
             return false;
+        }
+        if matches!(act, crate::model::parser::Act::EscDispatch | crate::model::parser::Act::CsiDispatch) && pm.unspecified {
+            return false; // not judged (numbers beyond the promised range, convention U7)
         }
     }
     pm.st == St::Ground
@@ -112,6 +116,40 @@ fn enumerated() -> Vec<String> {
                     if model_inert(&s) {
                         v.push(s);
                     }
+                }
+            }
+        }
+    }
+    // private marker + intermediate, two intermediates (CSI and ESC)
+    for intro in ["\x1b[", "\u{9b}"] {
+        for mk in ["?", "<", "=", ">", ""] {
+            for i1 in 0x20u32..=0x2f {
+                for i2 in [None, Some(0x20u32), Some(0x21), Some(0x24)] {
+                    if mk.is_empty() && i2.is_none() {
+                        continue;
+                    }
+                    for sh in ["", "25", "6;7"] {
+                        for f in 0x40u32..=0x7e {
+                            let mut s = format!("{}{}{}{}", intro, mk, sh, char::from_u32(i1).unwrap());
+                            if let Some(i2) = i2 {
+                                s.push(char::from_u32(i2).unwrap());
+                            }
+                            s.push(char::from_u32(f).unwrap());
+                            if model_inert(&s) {
+                                v.push(s);
+                            }
+                        }
+                    }
+                }
+            }
+        }
+    }
+    for i1 in 0x20u32..=0x2f {
+        for i2 in 0x20u32..=0x2f {
+            for f in 0x30u32..=0x7e {
+                let s = format!("\x1b{}{}{}", char::from_u32(i1).unwrap(), char::from_u32(i2).unwrap(), char::from_u32(f).unwrap());
+                if model_inert(&s) {
+                    v.push(s);
                 }
             }
         }
